@@ -64,7 +64,7 @@ def step (st : St) (n : Nat) (line : String) : St × List Verdict :=
         (if tx.length > N + 1 then [s!"{tx.length} transmissions of the Association Setup Request with max_req_retries {N}"] else []) ++
         (if !tx.isEmpty ∧ tx.length != want then [s!"Association Setup Request: {tx.length} transmissions, expected {want} (a response with its sequence number — {kind} — arrived at transmission {k}; 0 = never)"] else []) ++
         (if !sameSeq then ["retransmissions of the Association Setup Request do not carry the same sequence number"] else []) ++
-        (match gapsOK rt tx with | some m => [m] | none => []) ++
+        (if getBool j "nogaps" then [] else match gapsOK rt tx with | some m => [m] | none => []) ++
         (if kind = "accept" ∧ k != 0 ∧ !getBool obs "served" then ["the association the peer accepted is not served"] else [])
       let mm : List Verdict := if !tx.isEmpty ∧ mtx != tx.length then [.mismatch s!"model: {mtx} transmissions"] else []
       (st, o fs ++ mm)
